@@ -17,6 +17,8 @@ package c04
 //	                (even amounts) on the returned cache ctx for every send; RevertToSnapshot if
 //	                fails (or if the per-tx call limit was hit)
 //
+// A third driver (c04tx_test.go, TestC04Tx) sends REAL transactions through the real FunToken precompile.
+//
 // Observables: after StateDB.Commit the keeper's account / code / storage and the bank balance of every
 // model address; logs, refund, access list at the end of the run; the view pairs in execution order.
 
@@ -799,6 +801,12 @@ func runC04(t *testing.T, viaOnRunStart bool) {
 	var inputs []c04Input
 	if cfg.Replay != "" {
 		for _, raw := range cfg.ReplayInputs(t) {
+			var probe struct {
+				Tx json.RawMessage `json:"tx"`
+			}
+			if err := json.Unmarshal(raw, &probe); err == nil && probe.Tx != nil {
+				continue // an input of the transaction driver (c04tx_test.go)
+			}
 			var in c04Input
 			if err := json.Unmarshal(raw, &in); err != nil {
 				t.Fatalf("replay input: %v", err)
